@@ -9,7 +9,7 @@ W = 1 << 32
 BASE = ["alpha", "beta", "gamma", "delta", "epsilon", "zeta", "eta", "theta", "iota", "kappa", "lambda", "mu", "nu", "xi",
         "omicron", "pi", "rho", "sigma", "tau", "upsilon", "phi", "chi", "psi", "omega"]
 SPECIAL = ["polish", "Polish", "Alpha", "ALPHA", "正確", "4", "42", "ű", "Ű", "kettő", "Kettő", "három", "foo-bar", "Foo-Bar", "foo_bar",
-           "don't", "Don't", "o'neil", "éa", "Éa", "ǆ", "ǅ", "ß", "a b", "x", "X", "i", "I", "-", "1a", "1A", "a1b"]
+           "don't", "Don't", "o'neil", "O'neil", "O'Neil", "Jean-luc", "Jean-Luc", "New york", "New York", "éa", "Éa", "ǆ", "ǅ", "ß", "a b", "x", "X", "i", "I", "-", "1a", "1A", "a1b"]
 
 LISTS_FIXED = [
     ["one", "two", "three"],
@@ -22,6 +22,9 @@ LISTS_FIXED = [
     ["ű", "Ű", "x"],
     ["foo-bar", "Foo-Bar", "foo-Bar"],
     ["alpha", "alpha", "alpha"],
+    ["O'neil", "O'Neil", "x"],                                               # capitalised word whose title form differs in a later segment
+    ["Jean-luc", "Jean-Luc"],
+    ["New york", "New York", "new york"],
     ["4", "5", "6", "7", "8"],
 ]
 
@@ -103,7 +106,7 @@ def draws_for_sep(rng, sep, boundary=None):
         return [rng.randrange(W) for _ in range(r.length)]
     if boundary == "last" and not r.live_families():
         g = [len(A) - 1] * r.length
-    ws, _ = chargen.tape_for(rng, len(A), [g], spread=(boundary is None))
+    ws, _ = chargen.tape_for(rng, len(A), [g], rejections=(0.5 if boundary == "reject" else 0.0), spread=(boundary is None))
     return ws
 
 
@@ -115,19 +118,28 @@ def make_tape(rng, size, length, sep, cap, kind):
     L = length
 
     def idx_word(n, i):
-        return chargen.word_for_index(rng, n, i, spread=(kind == "exact"))
+        return chargen.word_for_index(rng, n, i, spread=(kind in ("exact", "boundary")))
     if kind == "random":
         return [rng.randrange(W) for _ in range(6 * L + 12)]
     pick = (lambda n: 0) if kind == "first" else (lambda n: n - 1) if kind == "last" else (lambda n: rng.randrange(n))
+
+    def rej(n):
+        # boundary tapes: a raw word the draw over n must reject (the exact threshold most of the time) before the deciding one
+        if kind == "boundary" and rng.random() < 0.6:
+            w = chargen.rejected_word(rng, n)
+            if w is not None:
+                words.append(w)
     if cap == "one":
+        rej(L)
         words.append(idx_word(L, pick(L)))
     elif cap == "random":
         for _ in range(L):
             words.append(idx_word(2, pick(2)))
     for i in range(L):
+        rej(size)
         words.append(idx_word(size, pick(size)))
         if i < L - 1:
-            words += draws_for_sep(rng, sep, boundary=("last" if kind == "last" else None))
+            words += draws_for_sep(rng, sep, boundary=("last" if kind == "last" else "reject" if kind == "boundary" else None))
     if sep[0] != "char":
         words += draws_for_sep(rng, sep)      # the Entropy() call
     if kind == "exact":
@@ -229,9 +241,14 @@ def gen_cases(ctx, n, with_empty_word=False):
         length = rng.choice([1, 1, 2, 2, 3, 3, 4, 5, 6]) if rng.random() < 0.93 else rng.choice([0, -2])
         sep = rng.choice(SEPS)
         cap = rng.choice(CAPS)
+        if rng.random() < 0.06:
+            # long passwords: positions beyond any machine-word bitmap (64, 65, ...) must be capitalisable too
+            length = rng.choice([64, 65, 66, 70, 97, 130])
+            sep = rng.choice(SEPS[:8])
+            cap = rng.choice(["all", "one", "random", "first"])
         budget = chargen.DEFAULT_BUDGET if rng.random() < 0.8 else rng.choice([(5, 1, 1000000000), (2, 1, 2), (12, 1, 2)])
         size = 0 if l in ("nil", "zero") else py_size(l)
-        for kind in rng.sample(["random", "first", "last", "exact"], 2):
+        for kind in (["last", "exact"] if length >= 64 else rng.sample(["random", "first", "last", "exact", "boundary"], 2)):
             words = make_tape(rng, size, length, sep, cap, kind)
             cases.append({"list": l, "length": length, "sep": sep, "cap": cap, "budget": budget, "words": words,
                           "meta": {"list": l if isinstance(l, str) else l[:12], "length": length, "sep": sep_json(sep), "cap": cap, "budget": budget,
